@@ -512,7 +512,7 @@ class App(falcon.app.App):
                 # resource middleware methods. Resource will also be
                 # None when a middleware method already set
                 # resp.complete to True.
-                if resource:
+                if resource is not None:
                     # Call process_resource middleware methods.
                     for process_resource in mw_rsrc_stack:
                         await process_resource(req, resp, resource, params)
@@ -1151,7 +1151,7 @@ class App(falcon.app.App):
             # resource middleware methods. Resource will also be
             # None when a middleware method already set
             # resp.complete to True.
-            if resource:
+            if resource is not None:
                 for process_resource_ws in resource_mw:
                     await process_resource_ws(req, web_socket, resource, params)
 
